@@ -1,4 +1,5 @@
 import PfdlProofs.ApiInv
+import Props.C14
 /-! C01 – every order runs to completion exactly when all its services are done.
 
 State-level statements over every reachable scheduler state (`Sched.Inv`, which holds after every
@@ -153,6 +154,18 @@ theorem finished_absorbing (s : Sched) (ee : EE) (fuel : Nat) (h : s.Inv) (hs : 
     | other => simp [Sched.fire_other]
   · simp only [Sched.start, hs]
     split <;> rfl
+
+/-- The production task is reported finished exactly once, namely iff the order has finished (the run
+    tree collapsed to `fin`, which by `no_stall`/`nothing_awaited_when_finished` is exactly when no
+    completion is outstanding) – over the whole history of any reachable state. -/
+theorem production_task_finished_once (s : Sched) (h : Pfdl.Props.C14.Reachable s) :
+    ((rootNotes s.hist).filter (fun n => n.kind == .tf)).length = if s.started && s.run.isFin then 1 else 0 := by
+  have ht := (Pfdl.Props.C14.reachable_inv h).2
+  rw [ht.root]
+  cases hs : s.started
+  · simp
+  · have hk := ht.rootK hs
+    cases hf : s.run.isFin <;> simp [Sched.rootTS, hk.1]
 
 /-- non-vacuity: an order with two services, one completed re-entrantly, runs to completion:
     finished, not running, nothing awaited -/
